@@ -253,10 +253,11 @@ def isolate_many(p):
     """K keys live at once (K crosses growth steps / cache capacities): the FIRST item of key 0 may fail (symbolic), then every other key gets one item,
     then key 0 and the last key get further items, one of which may fail; with ignore / router every key's outputs are those of the run without the failing items"""
     K, handler, seedkind = p['k'], p['handler'], p['seed']
+    where = p.get('where', 'map')           # 'scan': the failing function is the scan accumulator itself, the handler follows the scan
 
     def body(a):
         v0, v1, v2 = a
-        items = [(0, v0)] + [(k, 3 * k + 1) for k in range(1, K)] + [(0, v1), (K - 1, v2), (0, 5)]
+        items = [(0, v0)] + [(k, 3 * k + 1) for k in range(1, K)] + [(0, v1), (K - 1, v2), (0, 5)] + [(k, 3 * k + 4) for k in range(K)]      # every key gets a last item: a state lost in between shows
         dead = []
         if handler == 'router':
             errors, route = rs.error.create_error_router()
@@ -275,12 +276,18 @@ def isolate_many(p):
             tail = [rs.ops.scan(lambda acc, i: acc + (i,), seed=())]
         log = []
         inner = [rs.ops.map(lambda i: i[1]), rs.ops.map(f)] + h + tail + [D.tap(log)]
+        if where == 'scan':
+            if seedkind == 'int':
+                sc = rs.ops.scan(lambda acc, i: acc + f(i), seed=1000)
+            else:
+                sc = rs.ops.scan(lambda acc, i: acc + (f(i),), seed=())
+            inner = [rs.ops.map(lambda i: i[1]), sc] + h + [D.tap(log)]
         err = []
         quiet(lambda: D.src(items).pipe(rs.state.with_memory_store([rs.ops.group_by(lambda i: i[0], inner)])).subscribe(on_error=lambda e: err.append(repr(e))))
         outs, ok = D.lifetimes(log)
         if err or not ok or len(outs) != K:
             return fail(keys=K, err=err, wellformed=ok, seen=len(outs))
-        for k in (0, 1, K // 2, K - 1):
+        for k in range(K):
             good = [v + 1 for kk, v in items if kk == k and not bad(v)]
             exp = []
             acc = 1000 if seedkind == 'int' else ()
@@ -325,5 +332,7 @@ def obligations(tier, seed):
         for handler in ('ignore', 'router'):
             for seedkind in ('int', 'tuple'):
                 obs.append(Ob(PROP, 'isolate_many', dict(k=k, handler=handler, seed=seedkind), budget=b, group='many live keys', bound=dict(live_keys=k, handler=handler, downstream='scan with %s seed' % seedkind)))
+                if handler == 'ignore' or not q:
+                    obs.append(Ob(PROP, 'isolate_many', dict(k=k, handler=handler, seed=seedkind, where='scan'), budget=b, group='many live keys', bound=dict(live_keys=k, handler=handler, failing='scan accumulator with %s seed' % seedkind)))
     obs.append(Ob(PROP, 'isolate', dict(op='map', handler='router', tail='scan', ctx='group', n=3, _twin='reach'), budget=60, expect='refute'))
     return obs
